@@ -42,6 +42,9 @@ var c19Programs = []string{
 	`Obj.callProp(Either, 'val)`,
 	`Either.at(['fmap])`,
 	`[Either]@{|e| e['err]}`,
+	`invite!("dummy"); message`,
+	`m := import("dummy"); m.message`,
+	`message`,
 }
 
 // run evaluates src in a FRESH scope of the shared world and returns (Inspect, stack trace).
@@ -79,7 +82,7 @@ func H_C19_frame() {
 	hi := rt.Param(0)
 	bi := rt.Choice(len(c19Programs)) // the later program: a solver choice among the family
 	if rt.Param(1) >= 0 {
-		rt.Assume(bi == rt.Param(1) || bi == hi || bi == 3 || bi == 4 || bi == 14 || bi == 16 || bi == 17)
+		rt.Assume(bi == rt.Param(1) || bi == hi || bi == 3 || bi == 4 || bi == 14 || bi == 16 || bi == 17 || bi == 23)
 	}
 	a := int64(7) // results are compared by their printed form, so the input is concrete
 	world := c19WorldSnap()
